@@ -46,7 +46,7 @@ POOL = HOSTILE_STRINGS + [
 ]
 DIALECTS = ["sqlite", "postgresql", "mysql", "bigquery", "spark"]
 IDQUOTE = {"sqlite": '"', "postgresql": '"', "mysql": "`", "bigquery": "`", "spark": "`"}
-POSITIONS = ["extend-text", "extend-value", "select_rows", "is_in", "mapv-key", "mapv-value", "mapv-default", "column-name", "table-name",
+POSITIONS = ["extend-text", "extend-value", "select_rows", "is_in", "mapv-key", "mapv-value", "mapv-default", "column-name", "column-name-narrowed", "table-name",
              "concat-a_name", "concat-b_name", "concat-id_column", "record-control-key", "record-content-name", "record-key-column"]
 LITERAL_POS = {"extend-text", "extend-value", "select_rows", "is_in", "mapv-key", "mapv-value", "mapv-default", "concat-a_name",
                "concat-b_name", "record-control-key"}
@@ -99,6 +99,11 @@ def build(position, S):
     if position == "column-name":
         d2 = d.rename(columns={"g": S})
         t2 = TableDescription(table_name="d", column_names=[S, "x"])
+        return t2.extend({"y": "x + 1"}).order_rows([S, "x"]).select_columns([S, "y"]), {"d": d2}
+    if position == "column-name-narrowed":
+        # the table has a column the pipeline never uses: the generator reads the table through a narrowing SELECT
+        d2 = d.rename(columns={"g": S}).assign(unused_col=0)
+        t2 = TableDescription(table_name="d", column_names=[S, "x", "unused_col"])
         return t2.extend({"y": "x + 1"}).order_rows([S, "x"]).select_columns([S, "y"]), {"d": d2}
     if position == "table-name":
         t2 = TableDescription(table_name=S, column_names=["g", "x"])
